@@ -323,19 +323,20 @@ pub fn run_case(case: &Case, res: &mut SubResult) -> Result<(), String> {
     // pairwise identical: every source whose oracle is the full tree must have the same answer hash
     // (each was compared with the oracle answer by answer; the hash only feeds `distinct`)
     let hs: BTreeSet<u64> = hashes.iter().map(|x| x.1).collect();
-    for h in &hs {
+    // distinct = the answer table of this tree as the Embedded source gives it (one per observable tree)
+    if let Some((_, h)) = hashes.iter().find(|x| x.0 == "embedded") {
         res.outcome(h);
     }
     res.states += 1;
     res.evaluations += n_src;
     res.traces_validated += n_src;
-    res.add_note_count("cpu ms: all sources of all cases", us_all / 1000);
-    res.add_note_count("cpu us: queries", us_q);
-    res.add_note_count("cpu us: two-reader schedules", us_s);
-    res.add_note_count("cpu us: build fs tree", st.us_build_fs);
-    res.add_note_count("cpu us: build embedded (expand + interpret)", st.us_build_emb);
-    res.add_note_count("cpu us: build+open zip in-memory variants", st.us_build_zip);
-    res.add_note_count("cpu us: build+open tar in-memory variants", st.us_build_tar);
+    res.add_note_count("time ms (in-process wall): all sources of all cases", us_all / 1000);
+    res.add_note_count("time us (in-process wall): queries", us_q);
+    res.add_note_count("time us (in-process wall): two-reader schedules", us_s);
+    res.add_note_count("time us (in-process wall): build fs tree", st.us_build_fs);
+    res.add_note_count("time us (in-process wall): build embedded (expand + interpret)", st.us_build_emb);
+    res.add_note_count("time us (in-process wall): build+open zip in-memory variants", st.us_build_zip);
+    res.add_note_count("time us (in-process wall): build+open tar in-memory variants", st.us_build_tar);
     res.add_note_count("sources fs", st.fs);
     res.add_note_count("sources embedded (real expand_dir interpreted)", st.embedded);
     res.add_note_count("sources zip in-memory", st.zip_mem);
@@ -345,7 +346,7 @@ pub fn run_case(case: &Case, res: &mut SubResult) -> Result<(), String> {
     res.add_note_count("tar GNU long-name members", st.tar_longname_members);
     res.add_note_count("two-reader interleavings executed", scheds);
     if hs.len() > 1 {
-        res.add_note_count("trees on which some sources disagree", 1);
+        res.add_note_count("trees on which not all sources give the same answer table (known defects included)", 1);
     }
     Ok(())
 }
